@@ -1,6 +1,7 @@
 """Generic helper functions"""
 
 
+import numbers
 from functools import singledispatch
 
 import numpy as np
@@ -14,8 +15,9 @@ def sign(x):
     return eps
 
 
-@sign.register
-def _(x: float):
+@sign.register(numbers.Real)
+def _(x):
+    # (any real scalar: an end point or a threshold written as an integer is a number, not a sequence of numbers)
     if x < 0:
         return -1.0
 
